@@ -4,7 +4,8 @@
    commits 8948350 (F12), 4550195 (F13) and 483b7cf (C16-N1); the code before them is `context_old` in
    History/C14History.v, where the old witnesses are kept as history.  `hash` is universally
    quantified (DefaultHasher); where injectivity matters it is an explicit premise. *)
-Require Import Base Suggestion Ignore ListLemmas IgnoreProofs IgnoreJson IgnoreWitness Tables_lintcontext IgnoreShape.
+Require Import Base Suggestion Ignore ListLemmas IgnoreProofs IgnoreJson IgnoreWitness Tables_lintcontext IgnoreShape
+  C14EditProofs C14JsonExact C14Hash.
 From Coq Require Import String.
 From Coq Require Import Permutation.
 
@@ -252,6 +253,124 @@ Check C14_stable_dictionary :
   is_ignored context hash s2 l d' = Ok true.
 Print Assumptions C14_stable_dictionary.
 
+(* ---------- phase 3: edits, at the level of (source, token vector) ----------
+   The document is X ++ M ++ Y with the tokens of X (any tokens ending by |X|), of M and of Y (any tokens starting at or
+   behind |M|), the latter two moved by |X|: `around`.  The edit replaces X, Y and THEIR TOKENS by anything (tokens
+   inserted / removed elsewhere); M keeps its tokens.  A lint of M (span [s,e) in M's coordinates) whose two-character
+   windows lie in M — exactly: 2 <= s, s <= |M|, e + 2 <= |M| — has the same context before and after.  Both bounds are
+   needed: C14EditProofs.context_prepend_needs_two / context_append_needs_two *)
+Theorem C14_context_edit :
+  forall X tsX X' tsX' M tsM Y tsY Y' tsY' l,
+  doc_wf (mkdoc M tsM) ->
+  fits_before X tsX -> fits_before X' tsX' -> fits_after M Y tsY -> fits_after M Y' tsY' ->
+  2 <= sstart (il_span l) -> sstart (il_span l) <= List.length M -> send (il_span l) + 2 <= List.length M ->
+  context (shift_lint (List.length X) l) (around X tsX M tsM Y tsY)
+  = context (shift_lint (List.length X') l) (around X' tsX' M tsM Y' tsY').
+Proof. exact context_edit. Qed.
+Check C14_context_edit :
+  forall X tsX X' tsX' M tsM Y tsY Y' tsY' l,
+  doc_wf (mkdoc M tsM) ->
+  fits_before X tsX -> fits_before X' tsX' -> fits_after M Y tsY -> fits_after M Y' tsY' ->
+  2 <= sstart (il_span l) -> sstart (il_span l) <= List.length M -> send (il_span l) + 2 <= List.length M ->
+  context (shift_lint (List.length X) l) (around X tsX M tsM Y tsY)
+  = context (shift_lint (List.length X') l) (around X' tsX' M tsM Y' tsY').
+Print Assumptions C14_context_edit.
+
+(* hence the lint, once ignored, stays ignored across the edit: any hash, any history in between *)
+Theorem C14_stable_edit :
+  forall (hash : ctx -> N) X tsX X' tsX' M tsM Y tsY Y' tsY' l s s1 hist s2,
+  doc_wf (mkdoc M tsM) ->
+  fits_before X tsX -> fits_before X' tsX' -> fits_after M Y tsY -> fits_after M Y' tsY' ->
+  2 <= sstart (il_span l) -> sstart (il_span l) <= List.length M -> send (il_span l) + 2 <= List.length M ->
+  ignore_lint context hash s (shift_lint (List.length X) l) (around X tsX M tsM Y tsY) = Ok s1 ->
+  ignore_all context hash s1 hist = Ok s2 ->
+  is_ignored context hash s2 (shift_lint (List.length X') l) (around X' tsX' M tsM Y' tsY') = Ok true.
+Proof. exact stable_edit. Qed.
+Check C14_stable_edit :
+  forall (hash : ctx -> N) X tsX X' tsX' M tsM Y tsY Y' tsY' l s s1 hist s2,
+  doc_wf (mkdoc M tsM) ->
+  fits_before X tsX -> fits_before X' tsX' -> fits_after M Y tsY -> fits_after M Y' tsY' ->
+  2 <= sstart (il_span l) -> sstart (il_span l) <= List.length M -> send (il_span l) + 2 <= List.length M ->
+  ignore_lint context hash s (shift_lint (List.length X) l) (around X tsX M tsM Y tsY) = Ok s1 ->
+  ignore_all context hash s1 hist = Ok s2 ->
+  is_ignored context hash s2 (shift_lint (List.length X') l) (around X' tsX' M tsM Y' tsY') = Ok true.
+Print Assumptions C14_stable_edit.
+
+(* ---------- phase 3: the serde_json text, exactly ----------
+   parse (print p) for ANY list p of u64 values — duplicates, any order, 0 and u64::MAX included: the first occurrence
+   of every value survives (HashSet), in the reversed order of the text *)
+Theorem C14_json_exact :
+  forall p, Forall (fun h => (h <= u64_max)%N) p -> run_import (run_export p) = Some (rev (first_occ [] p)).
+Proof. exact import_export_exact. Qed.
+Check C14_json_exact :
+  forall p, Forall (fun h => (h <= u64_max)%N) p -> run_import (run_export p) = Some (rev (first_occ [] p)).
+Print Assumptions C14_json_exact.
+
+(* a real export (duplicate-free): text -> list -> text gives back the same bytes *)
+Theorem C14_json_text_identity :
+  forall p, NoDup p -> Forall (fun h => (h <= u64_max)%N) p ->
+  exists s, run_import (run_export p) = Some s /\ s = rev p /\ run_export (rev s) = run_export p.
+Proof. exact export_import_export. Qed.
+Check C14_json_text_identity :
+  forall p, NoDup p -> Forall (fun h => (h <= u64_max)%N) p ->
+  exists s, run_import (run_export p) = Some s /\ s = rev p /\ run_export (rev s) = run_export p.
+Print Assumptions C14_json_text_identity.
+
+(* two lists with the same text are the same list *)
+Theorem C14_export_injective :
+  forall p q, NoDup p -> NoDup q ->
+  Forall (fun h => (h <= u64_max)%N) p -> Forall (fun h => (h <= u64_max)%N) q ->
+  run_export p = run_export q -> p = q.
+Proof. exact export_injective. Qed.
+Check C14_export_injective :
+  forall p q, NoDup p -> NoDup q ->
+  Forall (fun h => (h <= u64_max)%N) p -> Forall (fun h => (h <= u64_max)%N) q ->
+  run_export p = run_export q -> p = q.
+Print Assumptions C14_export_injective.
+
+(* a number above u64::MAX (up to 20 digits) anywhere in the array: the import fails as a whole and changes no list *)
+Theorem C14_import_rejects_overflow :
+  forall a n b,
+  Forall (fun h => (h <= u64_max)%N) a -> (u64_max < n)%N -> (n < 10 ^ N.of_nat 20)%N ->
+  run_import (run_export (a ++ n :: b)%list) = None /\ forall s, import_into s (run_export (a ++ n :: b)%list) = None.
+Proof. exact import_rejects_overflow. Qed.
+Check C14_import_rejects_overflow :
+  forall a n b,
+  Forall (fun h => (h <= u64_max)%N) a -> (u64_max < n)%N -> (n < 10 ^ N.of_nat 20)%N ->
+  run_import (run_export (a ++ n :: b)%list) = None /\ forall s, import_into s (run_export (a ++ n :: b)%list) = None.
+Print Assumptions C14_import_rejects_overflow.
+
+(* ---------- phase 3: what is asked of DefaultHasher ----------
+   on a universe of contexts where the hash does not collide, ignored <=> the context is one of the ignored ones *)
+Theorem C14_ignored_iff :
+  forall (hash : ctx -> N) hist cs l d c s',
+  contexts_of context hist cs -> ignore_all context hash [] hist = Ok s' ->
+  context l d = Ok c -> hash_injective_on hash (c :: cs) ->
+  (is_ignored context hash s' l d = Ok true <-> In c cs).
+Proof. exact ignored_iff. Qed.
+Check C14_ignored_iff :
+  forall (hash : ctx -> N) hist cs l d c s',
+  contexts_of context hist cs -> ignore_all context hash [] hist = Ok s' ->
+  context l d = Ok c -> hash_injective_on hash (c :: cs) ->
+  (is_ignored context hash s' l d = Ok true <-> In c cs).
+Print Assumptions C14_ignored_iff.
+
+(* and the hypothesis is necessary: any collision between the contexts of two lints makes ignoring one hide the other *)
+Theorem C14_collision_hides :
+  forall (hash : ctx -> N) l1 d1 l2 d2 c1 c2 s s1,
+  context l1 d1 = Ok c1 -> context l2 d2 = Ok c2 -> hash c1 = hash c2 ->
+  ignore_lint context hash s l1 d1 = Ok s1 ->
+  is_ignored context hash s1 l2 d2 = Ok true /\
+  forall ls ls', remove_ignored context hash s1 ls d2 = Ok ls' -> ~ In l2 ls'.
+Proof. exact collision_hides. Qed.
+Check C14_collision_hides :
+  forall (hash : ctx -> N) l1 d1 l2 d2 c1 c2 s s1,
+  context l1 d1 = Ok c1 -> context l2 d2 = Ok c2 -> hash c1 = hash c2 ->
+  ignore_lint context hash s l1 d1 = Ok s1 ->
+  is_ignored context hash s1 l2 d2 = Ok true /\
+  forall ls ls', remove_ignored context hash s1 ls d2 = Ok ls' -> ~ In l2 ls'.
+Print Assumptions C14_collision_hides.
+
 (* ---------- non-vacuity ---------- *)
 (* the premises of hides / stable / stable_dictionary are satisfiable on real documents, and the witnesses
    of the repaired findings (regression inputs of corpus/C14; History/C14History.v proves that the OLD context
@@ -292,3 +411,19 @@ Example C14_import_union_example :
   import_into [5; 100]%N (run_export [7; 300; 5]%N) = Some [7; 300; 5; 100]%N /\
   import_into [300]%N (run_export [7]%N) = Some [7; 300]%N /\ import_into [7]%N (run_export [300]%N) = Some [300; 7]%N.
 Proof. repeat split; vm_compute; reflexivity. Qed.
+
+(* phase 3: the premises of C14_context_edit are satisfiable and the two bounds cannot be dropped; the JSON text with
+   duplicates and both u64 extremes; a colliding hash on the two `recieve` lints *)
+Example C14_phase3_examples :
+  (doc_wf (mkdoc needs_M needs_ts) /\ fits_before [120%N] [w_tok 0 1] /\ sstart (il_span (needs_l 1 2)) = 1 /\
+   context (shift_lint 1 (needs_l 1 2)) (prepend_doc [120%N] [w_tok 0 1] (mkdoc needs_M needs_ts))
+   <> context (needs_l 1 2) (mkdoc needs_M needs_ts)) /\
+  (fits_after needs_M [120%N] [w_tok 5 6] /\ send (il_span (needs_l 3 4)) + 2 = S (List.length needs_M) /\
+   context (needs_l 3 4) (append_doc (mkdoc needs_M needs_ts) [120%N] [w_tok 5 6])
+   <> context (needs_l 3 4) (mkdoc needs_M needs_ts)) /\
+  run_import (run_export [7; 0; 7; 18446744073709551615; 0; 3]%N) = Some [3; 18446744073709551615; 0; 7]%N /\
+  run_import (run_export [5; 18446744073709551616; 9]%N) = None.
+Proof.
+  split; [exact context_prepend_needs_two|]. split; [exact context_append_needs_two|].
+  split; vm_compute; reflexivity.
+Qed.
